@@ -143,27 +143,22 @@ build_harness!(sb_build_empty, 8);
 
 /// C11 (writer side): once a BodyWriter has been aborted, every later write and flush fails,
 /// for the raw and the gzip arm alike.
-/// SCENARIO sb_dead_after_abort: gz:bool n:usize
-#[kani::proof]
-#[kani::unwind(12)]
-pub fn sb_dead_after_abort() {
+fn dead_after_abort(gz: bool) {
     use vs::io::Write;
-    let gz: bool = kani::any();
-    let (cw, r) = crate::chunker::Writer::<D, E>::with_chunk_size(2);
+    let (cw, r) = crate::chunker::Writer::<D, E>::with_chunk_size(4);
     let mut w = if gz {
         BodyWriter::gzipped(cw, flate2::Compression::new(6))
     } else {
         BodyWriter::raw(cw)
     };
     let data = [1u8, 2, 3];
-    let n: usize = kani::any();
-    kani::assume(n <= 3);
-    let r0 = w.write(&data[..n]);
+    let r0 = w.write(&data[..1]);
     assert!(r0.is_ok(), "C08: write to a live body failed");
     std::mem::forget(r0);
     w.abort(E);
     assert!(matches!(w.0, Inner::Dead), "C11: writer not dead after abort");
-    let r1 = w.write(&data[..n]);
+    // a write that does NOT complete a chunk: only the writer's own Dead state can refuse it
+    let r1 = w.write(&data[..1]);
     let r2 = w.flush();
     assert!(r1.is_err() && r2.is_err(), "C11: write or flush succeeded after abort");
     std::mem::forget(r1);
@@ -171,4 +166,16 @@ pub fn sb_dead_after_abort() {
     w.abort(E); // idempotent
     std::mem::forget(w);
     std::mem::forget(r);
+}
+
+#[kani::proof]
+#[kani::unwind(12)]
+pub fn sb_dead_after_abort_raw() {
+    dead_after_abort(false)
+}
+
+#[kani::proof]
+#[kani::unwind(12)]
+pub fn sb_dead_after_abort_gz() {
+    dead_after_abort(true)
 }
